@@ -101,7 +101,9 @@ func TestC01(t *testing.T) {
 		"for a request that is both unauthorised and ill-formed (empty name on put/activate, version 0, reserved prefix on a mutation) either the denied class or another error class is accepted; a reserved-prefix name is a name like any other (refusal must be access-denied)")
 	dir := evid.TempDir(t)
 	nCases := r.N(600, 8000)
-	const addr = "100.64.0.2:4711"
+	// the caller's source address: a tailnet address, or loopback (a client on the server's own host)
+	addrs := []string{"100.64.0.2:4711", "127.0.0.1:4711", "[::1]:4711", "[::ffff:127.0.0.1]:4711", "[fd7a:115c:a1e0::2]:4711"}
+	const superIP = "100.64.9.9"
 	var wg sync.WaitGroup
 	nw := runtime.NumCPU()
 	for w := 0; w < nw; w++ {
@@ -113,6 +115,13 @@ func TestC01(t *testing.T) {
 					continue
 				}
 				rng := r.Rand(uint64(c))
+				addr := addrs[c%len(addrs)]
+				// half of the cases also CLAIM, in request headers, to be the all-powerful peer
+				var spoof map[string]string
+				if sh := httpdrv.SpoofHeaders(superIP, "super@verif"); c%2 == 1 {
+					spoof = sh[(c/2)%len(sh)]
+					r.Count("http_cases_with_spoofed_identity_headers", 1)
+				}
 				var lv [2]*level
 				ok := true
 				for li, ln := range []string{"db", "http"} {
@@ -166,6 +175,9 @@ func TestC01(t *testing.T) {
 				who := httpdrv.Who{Login: "eve@verif", Node: "eve.verif", Rules: rules}
 				lv[1].srv.SetWho(addr, who)
 				lv[1].tsrv.SetWho(addr, who)
+				superWho := httpdrv.Who{Login: "super@verif", Node: "super.verif", Rules: []refmodel.Rule{{Actions: []string{"get", "info", "put", "activate", "delete"}, Patterns: []string{"*"}}}}
+				lv[1].srv.SetWhoIP(superIP, superWho)
+				lv[1].tsrv.SetWhoIP(superIP, superWho)
 				// 3. every operation on every name
 				var calls []ops.Op
 				for _, k := range ops.AllKinds {
@@ -218,7 +230,7 @@ func TestC01(t *testing.T) {
 						if l.name == "db" {
 							got = ops.ApplyReal(l.d, caller, op)
 						} else {
-							got, rep, decoded = l.srv.Do(addr, op)
+							got, rep, decoded = l.srv.DoWith(addr, op, spoof)
 						}
 						r.Eval(1)
 						if ci < 6 && l.name == "db" {
@@ -261,7 +273,7 @@ func TestC01(t *testing.T) {
 									fail("refusal-depends-on-existence", fmt.Sprintf("refusal is %q (%s) here but %q (%s) where nothing exists", got.Err, got.Class, tgot.Err, tgot.Class))
 								}
 							} else {
-								tgot, trep, _ = l.tsrv.Do(addr, op)
+								tgot, trep, _ = l.tsrv.DoWith(addr, op, spoof)
 								if trep.Status != rep.Status || !bytes.Equal(trep.Body, rep.Body) {
 									fail("refusal-depends-on-existence", fmt.Sprintf("reply is %d %q here but %d %q where nothing exists", rep.Status, rep.Body, trep.Status, trep.Body))
 								}
@@ -312,7 +324,7 @@ func TestC01(t *testing.T) {
 		}
 		concurrentPeers(t, r, dir)
 	}
-	r.Require("rule_changes_mid_case", "concurrent_peer_replies", "concurrent_denied_calls", "cases", "allowed_calls", "denied_calls", "denied_on_existing", "denied_on_absent")
+	r.Require("rule_changes_mid_case", "concurrent_peer_replies", "concurrent_denied_calls", "cases", "http_cases_with_spoofed_identity_headers", "allowed_calls", "denied_calls", "denied_on_existing", "denied_on_absent")
 	r.Rule("case = (database state reached by 4-13 random superuser operations over a hostile 12-name pool incl. empty, reserved, newline, literal-'*' and path-like ('a/../b', 'a//b', 'a/b/') names; 0-3 random rules over the 5 actions (+unknown ones) and 23 exact/wildcard/regexp-meta patterns); then all 9 operations x all 8 names x versions {0,1,2,9} in random order, at the DB API and through the HTTP handlers. Distinct = (level, operation, authorised?, secret exists?, model outcome class, rule count)")
 }
 
